@@ -914,6 +914,19 @@ public:
         "tainted<int, T_Sbx> foo(rlbox_sandbox<T_Sbx>& sandbox, "
         "tainted<int, T_Sbx> a, tainted<int, T_Sbx> b) {...}\n");
     }
+    else if_constexpr_named(
+      cond5,
+      !((std::is_same_v<T_Sbx, detail::rlbox_get_wrapper_sandbox_t<T_Args>> &&
+         ...) &&
+        (std::is_void_v<T_Ret> ||
+         std::is_same_v<T_Sbx, detail::rlbox_get_wrapper_sandbox_t<T_Ret>>)))
+    {
+      rlbox_detail_static_fail_because(
+        cond5,
+        "The tainted or tainted_opaque arguments and return value of the "
+        "callback belong to a different sandbox type than the sandbox the "
+        "callback is being registered with.");
+    }
     else
     {
       detail::dynamic_check(
